@@ -258,6 +258,11 @@ pub fn compute<'data, P: Platform, A: Arch<Platform = P>>(
     merge_secondary_parts(&output_sections, &mut merged_section_layouts);
 
     output.set_size(compute_total_file_size(&section_layouts));
+    #[cfg(wild_verif)]
+    {
+        simrt::phase("after_set_size");
+        simrt::fault_err("after_set_size")?;
+    }
 
     let Some(FileLayoutState::Prelude(internal)) =
         &group_states.first().and_then(|g| g.files.first())
@@ -1010,7 +1015,16 @@ impl<'data, P: Platform> SymbolRequestHandler<'data, P> for SyntheticSymbolsLayo
             // We've gotten a request to load a __start_ / __stop_ symbol, sent requests to load all
             // sections that would go into that section.
             let sections = resources.start_stop_sections.get(output_section_id);
+            #[cfg(wild_verif)]
+            simrt::sched_point("gc_startstop_pop");
             while let Some(request) = sections.pop() {
+                #[cfg(wild_verif)]
+                simrt::event(
+                    "gc_startstop_pop",
+                    output_section_id.as_usize() as u64,
+                    request.file_id.group() as u64,
+                    u64::from(request.section_index),
+                );
                 resources.send_work::<A>(
                     request.file_id,
                     WorkItem::LoadSection(request),
@@ -1997,19 +2011,36 @@ impl<'data, P: Platform> GroupActivationInputs<'data, P> {
             }
         }
 
+        #[cfg(wild_verif)]
+        simrt::event(
+            "gc_activated",
+            group_index as u64,
+            u64::from(should_delay_processing),
+            0,
+        );
         if should_delay_processing {
+            #[cfg(wild_verif)]
+            simrt::sched_point("gc_delay_push");
             resources.delay_processing.push(group).unwrap();
         } else {
             group.do_pending_work::<A>(resources, scope);
         }
 
+        #[cfg(wild_verif)]
+        simrt::sched_point("gc_activations_dec");
         let remaining = resources
             .activations_remaining
             .fetch_sub(1, atomic::Ordering::Relaxed)
             - 1;
 
+        #[cfg(wild_verif)]
+        simrt::event("gc_activation_done", group_index as u64, remaining as u64, 0);
         if remaining == 0 {
+            #[cfg(wild_verif)]
+            simrt::sched_point("gc_delay_pop");
             while let Some(group) = resources.delay_processing.pop() {
+                #[cfg(wild_verif)]
+                simrt::event("gc_delay_drained", group.queue.index as u64, 0, 0);
                 group.do_pending_work::<A>(resources, scope);
             }
         }
@@ -2059,6 +2090,27 @@ fn find_required_sections<'data, A: Arch>(
     });
 
     let mut errors: Vec<Error> = take(resources.errors.lock().unwrap().as_mut());
+    #[cfg(wild_verif)]
+    {
+        simrt::event("gc_done", num_groups as u64, errors.len() as u64, 0);
+        if errors.is_empty() {
+            for slot in &resources.worker_slots {
+                let slot = slot.lock().unwrap();
+                simrt::invariant(
+                    slot.work.is_empty(),
+                    "C39: work left in a mailbox after the traversal finished",
+                );
+                simrt::invariant(
+                    slot.worker.is_some(),
+                    "C39: a group was not parked after the traversal finished",
+                );
+            }
+            simrt::invariant(
+                resources.delay_processing.is_empty(),
+                "C39: delayed group never processed",
+            );
+        }
+    }
     // TODO: Figure out good way to report more than one error.
     if let Some(error) = errors.pop() {
         return Err(error);
@@ -2136,9 +2188,18 @@ impl<'data, P: Platform> GroupState<'data, P> {
         resources: &'scope GraphResources<'data, '_, P>,
         scope: &Scope<'scope>,
     ) {
+        #[cfg(wild_verif)]
+        simrt::event("gc_enter", self.queue.index as u64, 0, 0);
         loop {
             while let Some(work_item) = self.queue.local_work.pop() {
                 let file_id = work_item.file_id(resources.symbol_db);
+                #[cfg(wild_verif)]
+                simrt::event(
+                    "gc_handle",
+                    self.queue.index as u64,
+                    simrt::hash_str(&format!("{work_item:?}")),
+                    0,
+                );
                 let file = &mut self.files[file_id.file()];
                 if let Err(error) = file.do_work::<A>(
                     &mut self.common,
@@ -2147,16 +2208,24 @@ impl<'data, P: Platform> GroupState<'data, P> {
                     &mut self.queue,
                     scope,
                 ) {
+                    #[cfg(wild_verif)]
+                    simrt::event("gc_errexit", self.queue.index as u64, 0, 0);
                     resources.report_error(error);
                     return;
                 }
             }
+            #[cfg(wild_verif)]
+            simrt::sched_point("gc_slot");
             {
                 let mut slot = resources.worker_slots[self.queue.index].lock().unwrap();
                 if slot.work.is_empty() {
+                    #[cfg(wild_verif)]
+                    simrt::event("gc_park", self.queue.index as u64, 0, 0);
                     slot.worker = Some(self);
                     return;
                 }
+                #[cfg(wild_verif)]
+                simrt::event("gc_swap", self.queue.index as u64, slot.work.len() as u64, 0);
                 swap(&mut slot.work, &mut self.queue.local_work);
             };
         }
@@ -2322,11 +2391,20 @@ impl<'data, P: Platform> GraphResources<'data, '_, P> {
         resources: &'scope GraphResources<'data, '_, P>,
         scope: &Scope<'scope>,
     ) {
+        #[cfg(wild_verif)]
+        simrt::sched_point("gc_send");
         let worker;
         {
             let mut slot = self.worker_slots[file_id.group()].lock().unwrap();
             worker = slot.worker.take();
             slot.work.push(work);
+            #[cfg(wild_verif)]
+            simrt::event(
+                "gc_send",
+                file_id.group() as u64,
+                simrt::hash_str(&format!("{work:?}")),
+                u64::from(worker.is_some()),
+            );
         };
         if let Some(worker) = worker {
             scope.spawn(|scope| {
@@ -3667,6 +3745,16 @@ impl<'data, P: Platform> ObjectLayoutState<'data, P> {
                             object::SectionIndex(i),
                             &resources.symbol_db.section_part_ids,
                         );
+                        #[cfg(wild_verif)]
+                        {
+                            simrt::sched_point("gc_startstop_push");
+                            simrt::event(
+                                "gc_startstop_push",
+                                part_id.output_section_id().as_usize() as u64,
+                                self.file_id.group() as u64,
+                                i as u64,
+                            );
+                        }
                         resources
                             .start_stop_sections
                             .get(part_id.output_section_id())
